@@ -265,16 +265,7 @@ impl PutSink {
     fn new() -> Self {
         PutSink { slot: [([0u8; 8], 0); SINK_SLOTS], n: 0 }
     }
-    fn rec(&mut self, v: u64, len: usize) {
-        // big-endian, by division (not to_be_bytes)
-        let mut b = [0u8; 8];
-        let mut x = v;
-        let mut i = len;
-        while i > 0 {
-            i -= 1;
-            b[i] = (x % 256) as u8;
-            x /= 256;
-        }
+    fn rec(&mut self, b: [u8; 8], len: usize) {
         assert!(self.n < SINK_SLOTS);
         self.slot[self.n] = (b, len);
         self.n += 1;
@@ -293,17 +284,20 @@ unsafe impl BufMut for PutSink {
     fn put_slice(&mut self, _src: &[u8]) {
         unreachable!("Settings::encode must only use put_u8/16/32/64")
     }
+    // big-endian by division (not `to_be_bytes`)
     fn put_u8(&mut self, n: u8) {
-        self.rec(n as u64, 1)
+        self.rec([n, 0, 0, 0, 0, 0, 0, 0], 1)
     }
     fn put_u16(&mut self, n: u16) {
-        self.rec(n as u64, 2)
+        self.rec([(n / 256) as u8, (n % 256) as u8, 0, 0, 0, 0, 0, 0], 2)
     }
     fn put_u32(&mut self, n: u32) {
-        self.rec(n as u64, 4)
+        let b = |k: u32| ((n / (1u32 << (8 * k))) % 256) as u8;
+        self.rec([b(3), b(2), b(1), b(0), 0, 0, 0, 0], 4)
     }
     fn put_u64(&mut self, n: u64) {
-        self.rec(n, 8)
+        let b = |k: u32| ((n / (1u64 << (8 * k))) % 256) as u8;
+        self.rec([b(7), b(6), b(5), b(4), b(3), b(2), b(1), b(0)], 8)
     }
 }
 
